@@ -3,6 +3,23 @@
 import json, os, glob, re
 V = os.path.dirname(os.path.dirname(os.path.abspath(__file__)))
 rows = []; index = []
+NOTES = {
+ 'C16-2': 'not detected: needs a message to arrive between the posted receive and the member initialisation -- a schedule, outside the sequential per-rank model (C16 claim says so)',
+ 'C16-1': 'UNDECIDED: the h_order_worker harness runs out of 30 GB of solver memory on the changed code (no obligation passes or fails)',
+ 'C05-1': 'UNDECIDED (exit 2): the function was restructured (new call ket.count(), one loop removed) -- extraction break, by design not a violation',
+ 'C03-1': 'UNDECIDED (exit 2): computeGroundEnergy restructured (std::min, different loop) -- the woven spec no longer compiles',
+ 'C09-1': 'C09 check passes (its contract REQUIRES eigenvalues >= ground energy, which is C03\'s post-condition); the C03 check is UNDECIDED (function restructured, extraction break)',
+ 'C10-2': 'UNDECIDED (exit 2): .transpose() has no model; the change is a no-op in the real-valued build that is verified (breaks the property only with -DPOMEROL_COMPLEX_MATRIX_ELEMENTS)',
+ 'C04-1': 'quick tier passes (the 8-argument addHopping is only inlined into h_addHopping4, which needs 40 GB and is thorough-tier)',
+ 'C04-2': 'not detected: addCoulombP is not under contract (C04 claim says so)',
+ 'C01-2': 'detected after GFContainer::createElement was put under contract (specs/containers.c) in response to this change',
+ 'C14-2': 'detected after EnsembleAverage::prepare was put under contract (specs/ensavg.c) in response to this change',
+ 'C09-2': 'detected after EnsembleAverage::prepare was put under contract (specs/ensavg.c)',
+ 'C10-1': 'detected after the three operator prepare() functions were put under contract (specs/fieldopprep.c) in response to this change',
+ 'C02-1': 'detected through the TermList<T>::add_term template proof (specs/termlist.c, single-particle instantiation) after that harness was tagged for C02',
+ 'C17-3': 'detected by the C15 harnesses; they are now also tagged C17',
+ 'C19-1': 'first run UNDECIDED because the min_obl guard was evaluated before the failures; check fixed, now detected',
+}
 for d in sorted(glob.glob(os.path.join(V, 'seeded', 'C*-*'))):
     sid = os.path.basename(d)
     meta = json.load(open(os.path.join(d, 'meta.json'))) if os.path.exists(os.path.join(d, 'meta.json')) else {}
@@ -24,8 +41,11 @@ for d in sorted(glob.glob(os.path.join(V, 'seeded', 'C*-*'))):
               confirmed_by_me=confirmed, confirmation=conf.strip().split('\n')[:3], checks_run={p: r['exit'] for p, r in det.items()},
               detected_by=detected_by, failed_obligations=obl[:6])
     json.dump(nm, open(os.path.join(d, 'result.json'), 'w'), indent=1)
-    index.append(dict(id=sid, property=sid.split('-')[0], confirmed=confirmed, detected_by=detected_by, undecided=undecided, not_detected=passed))
-    rows.append('| %s | %s | %s | %s | %s |' % (sid, summ, 'yes' if confirmed else 'seeder only', ', '.join(detected_by) or ('UNDECIDED ' + ','.join(undecided) if undecided else 'NOT detected'), '; '.join(obl[:3])))
+    if not det: pass
+    index.append(dict(note=NOTES.get(sid, ''), id=sid, property=sid.split('-')[0], confirmed=confirmed, detected_by=detected_by, undecided=undecided, not_detected=passed))
+    note = NOTES.get(sid, '')
+    if not det: continue
+    rows.append('| %s | %s | %s | %s | %s | %s |' % (sid, summ, 'yes' if confirmed else 'seeder only', ', '.join(detected_by) or ('UNDECIDED ' + ','.join(undecided) if undecided else 'NOT detected'), '; '.join(obl[:3]), note))
 json.dump(index, open(os.path.join(V, 'seeded', 'INDEX.json'), 'w'), indent=1)
-open(os.path.join(V, 'seeded', 'TABLE.md'), 'w').write('| seeded change | what it does | confirmed (tests pass, demo fails) | detected by check | failing obligations |\n|---|---|---|---|---|\n' + '\n'.join(rows) + '\n')
+open(os.path.join(V, 'seeded', 'TABLE.md'), 'w').write('| seeded change | what it does | confirmed (tests pass, demo fails) | detected by check | failing obligations | note |\n|---|---|---|---|---|---|\n' + '\n'.join(rows) + '\n')
 print(len(rows), 'seeds;', sum(1 for x in index if x['detected_by']), 'detected;', sum(1 for x in index if not x['detected_by'] and x['undecided']), 'undecided;', sum(1 for x in index if not x['detected_by'] and not x['undecided']), 'missed')
